@@ -106,6 +106,21 @@ def _walk_lark_tree(op, *, data_def=None) -> data_algebra.expr_rep.Term:
                 # check we have 3 or more pieces (and an odd number of such)
                 if (nc < 3) or ((nc % 2) != 1):
                     raise ValueError("unexpected " + r_op.data + " length")
+                if (r_op.data == "comparison") and (nc > 3):
+                    # Python chains comparisons: a < b < c means (a < b) and (b < c)
+                    operands = [
+                        _r_walk_lark_tree(r_op.children[i])
+                        for i in range(nc)
+                        if (i % 2) == 0
+                    ]
+                    tests = []
+                    for i in range((nc - 1) // 2):
+                        op_name = str(r_op.children[2 * i + 1])
+                        op_name = op_remap.get(op_name, op_name)
+                        tests.append(getattr(operands[i], op_name)(operands[i + 1]))
+                    return data_algebra.expr_rep.kop_expr(
+                        "and", tests, inline=True, method=False
+                    )
                 # check ops are all the same
                 ops_seen = [str(r_op.children[i]) for i in range(nc) if (i % 2) == 1]
                 if (len(set(ops_seen)) == 1) and (r_op.data in ["arith_expr", "term"]):
